@@ -448,6 +448,29 @@ class Farm:
             z.close()
 
 
+def run_case_files_retry(files, attempts=3):
+    """common.run_case_files, re-running files whose coqc died without output (fork/oom trouble on an
+    overloaded machine is not a verdict)."""
+    res = common.run_case_files(files)
+    for _ in range(attempts - 1):
+        again = [p for p in files if res[p][0] != 0 and not res[p][1].strip()]
+        if not again:
+            break
+        time.sleep(2)
+        res.update(common.run_case_files(again))
+    return res
+
+
+def fail_closed(run, fn, *args):
+    """An internal error of the harness must not look like a quiet run, nor die without a verdict line."""
+    try:
+        fn(*args)
+    except Exception as e:  # noqa
+        run.violation({"kind": "harness-error", "error": f"{type(e).__name__}: {e}",
+                       "traceback": traceback.format_exc()[-3000:],
+                       "explanation": "the check itself failed; no statement about the property"}, False)
+
+
 # ------------------------------------------------------------------------------------------------
 # cache mechanics: case generation + Coq side
 
@@ -629,7 +652,7 @@ def check(run: common.Run):
     core = mods["core"]
     farm = Farm()                 # forked NOW: pyrefact imported, nothing run yet
     try:
-        _check(run, wd, mods, core, farm, t_start)
+        fail_closed(run, _check, run, wd, mods, core, farm, t_start)
     finally:
         farm.close()
 
@@ -668,7 +691,7 @@ def _check(run, wd, mods, core, farm, t_start):
         write_mech_file(p, mech_items[k:k + CH])
         files.append(p)
         shards.append(mech_items[k:k + CH])
-    cres = common.run_case_files(files)
+    cres = run_case_files_retry(files)
     mech_dis = []
     for p, shard in zip(files, shards):
         rc, out = cres[p]
